@@ -44,7 +44,10 @@ def value_lt(val, t):
             if isinstance(r_, tuple):
                 return z3.And(r_[1], r_[2])
             if r_ is None:
-                raise Inconclusive('value comparison not decidable exactly')
+                v_ = val.inner.to_fp()
+                if is_sym(v_):
+                    raise Inconclusive('value comparison not decidable exactly')
+                return z3.BoolVal({'Eq': v_ == c, 'Gt': v_ > c}[op])
             return ZB(r_) if not isinstance(r_, bool) else z3.BoolVal(r_)
         return z3.And(z3.Not(cmpc('Eq', 0.0)), cmpc('Gt', 1.0 / t))
     if isinstance(val, (F64Exact, F64Dec, F64Recip)):
@@ -52,7 +55,10 @@ def value_lt(val, t):
         if isinstance(r, tuple):
             return z3.And(r[1], r[2])
         if r is None:
-            raise Inconclusive('value comparison not decidable exactly')
+            v_ = val.to_fp()
+            if is_sym(v_):
+                raise Inconclusive('value comparison not decidable exactly')
+            return z3.BoolVal(v_ < t)
         return ZB(r)
     if isinstance(val, float):
         return z3.BoolVal(val < t)
